@@ -143,9 +143,9 @@ type Execution struct {
 	Blocked      []string // goroutines blocked when the execution ended (descriptions)
 	BlockedLocks int      // number of goroutines blocked on a lock at the end
 	MainDone     bool
-	AliveAtEnd   int   // goroutines still alive (not exited) when the execution ended (before kill)
-	TimerBlocked int   // of those, blocked on a timer channel
-	Contention   int   // number of points at which some goroutine was disabled (lock held / chan not ready)
+	AliveAtEnd   int // goroutines still alive (not exited) when the execution ended (before kill)
+	TimerBlocked int // of those, blocked on a timer channel
+	Contention   int // number of points at which some goroutine was disabled (lock held / chan not ready)
 	ClockFirings int
 	EndTime      int64
 	NGoroutines  int
@@ -160,8 +160,8 @@ var (
 	killing  bool // tear down: shims become no-ops
 	reqCh    = make(chan request)
 	exitCh   = make(chan int, 4096) // visible (race detector) release from every goroutine at exit
-	curGid   int      // gid of the running goroutine; written by the scheduler, read by workers via norace accessor
-	clockNow int64    // virtual time in unix nanos
+	curGid   int                    // gid of the running goroutine; written by the scheduler, read by workers via norace accessor
+	clockNow int64                  // virtual time in unix nanos
 
 	plainNow int64 = defaultBase // virtual time when no execution is active
 )
